@@ -147,9 +147,43 @@ def case_init(case, obs) -> None:
     import mici
 
     rng = np.random.default_rng([abs(int(s)) for s in case["seed"]])
-    spec = zoo.random_sys_spec(rng, kinds=("euclidean", "gaussian"), dim_range=(1, 5))
-    m = zoo.Model(spec)
-    q, p = m.random_point(rng, scale=float(rng.choice([0.2, 1.0, 3.0])))
+    if int(case["seed"][-1]) % 3 == 2:
+        # density with a restricted domain (log barrier at |q_i| = 1): the energy is NaN once a step leaves the domain,
+        # typically at a power-of-two step size at which the energy error of the previous one was still small
+        dim = int(rng.integers(1, 4))
+        a = float(10 ** rng.uniform(-2.5, -0.5))
+
+        class Barrier:
+            kind, dim_ = "euclidean", dim
+
+            def __init__(self):
+                def nld(x):
+                    with np.errstate(all="ignore"):
+                        return float(-a * np.sum(np.log(1 - x**2)) + 0.5 * 0.1 * x @ x)
+
+                def grad(x):
+                    with np.errstate(all="ignore"):
+                        return 2 * a * x / (1 - x**2) + 0.1 * x
+
+                self.system = mici.systems.EuclideanMetricSystem(nld, grad_neg_log_dens=grad)
+                self.nld = nld
+                self.constrained = False
+                self.dim = dim
+
+            def ref_h(self, x, mom):
+                return self.nld(np.asarray(x)) + 0.5 * float(np.dot(mom, mom))
+
+            def state(self, x, mom, direction=1):
+                return mici.states.ChainState(pos=np.array(x, dtype=float), mom=np.array(mom, dtype=float), dir=direction)
+
+        m = Barrier()
+        spec = {"sys": "euclidean", "target": "log-barrier", "a": a, "dim": dim}
+        q = rng.uniform(-0.3, 0.3, dim)
+        p = rng.standard_normal(dim) * float(rng.choice([0.05, 0.2, 0.5]))
+    else:
+        spec = zoo.random_sys_spec(rng, kinds=("euclidean", "gaussian"), dim_range=(1, 5))
+        m = zoo.Model(spec)
+        q, p = m.random_point(rng, scale=float(rng.choice([0.2, 1.0, 3.0])))
     kind = str(rng.choice(["leapfrog", "bcss2", "bcss3"]))
     integ = zoo.make_integrator(m, {"int": kind, "step_size": 0.123})
     adapter = mici.adapters.DualAveragingStepSizeAdapter()
@@ -176,6 +210,11 @@ def case_init(case, obs) -> None:
         ok = d_here <= math.log(2) < d_nb
     else:
         ok = d_nb <= math.log(2) < d_here
+        if not ok and d_here <= math.log(2) and math.isinf(dh(2 * eps)):
+            # doubling ran into a non-finite energy before the error exceeded log 2: the crossing is then between the
+            # returned step size (largest finite one below the threshold) and its double
+            ok = True
+            obs.count("init_searches_stopped_by_non_finite_energy")
     if abs(d_here - math.log(2)) < 1e-9 or abs(d_nb - math.log(2)) < 1e-9:
         obs.inconc("init-search-threshold-tie")
         return
@@ -183,7 +222,7 @@ def case_init(case, obs) -> None:
         obs.violation("init:no-log2-crossing",
                       f"initial step size {eps!r}: |dH|={d_here:.4g}, neighbour {'2x' if too_big_at_one else '/2'} |dH|={d_nb:.4g}, "
                       f"search direction {'halving' if too_big_at_one else 'doubling'}; sys={spec}")
-    obs.token("init", spec["sys"], kind, too_big_at_one)
+    obs.token("init", spec["sys"], spec.get("target", "smooth"), kind, too_big_at_one, math.isinf(d_here) or math.isinf(d_nb))
 
 
 # ---------------------------------------------------------- variance / covariance
